@@ -88,6 +88,53 @@ def native_check(kind, N, B, negB, k, epochs=2, seed=0, use_sched=True, reinit=F
     return fails
 
 
+def restored_checkpoint(kind, seed=0):
+    """Interplay: a callback saves a checkpoint at train start and loads it back in the middle of the run; every later step
+    is still theta - lr * gradient on the state's parameters (plain SGD, gradient taken from the public per-batch method)."""
+    import os
+    import tempfile
+    from qucumber.callbacks import LambdaCallback
+    rng = np.random.default_rng(seed)
+    torch.manual_seed(seed)
+    st = C.make_state(kind, 2, 2, 1)
+    C.randomize(st, rng, 0.5)
+    if kind == "mixed":
+        st.rbm_ph.aux_bias.data.zero_()
+    data = torch.tensor(rng.integers(0, 2, size=(4, 2)), dtype=torch.double)
+    kw = {} if kind == "positive" else {"input_bases": np.array([list("ZZ"), list("XZ"), list("ZZ"), list("ZY")])}
+    tmp = tempfile.mkdtemp(prefix="vf_c06_")
+    path = os.path.join(tmp, "ck.pt")
+    fails, grads, snap = [], {}, {}
+    real = st.compute_batch_gradients
+
+    def spy(*a, **k):
+        g = real(*a, **k)
+        grads["g"] = [x.clone() for x in g]
+        return g
+    st.compute_batch_gradients = spy
+
+    def flat(net):
+        return torch.cat([p.detach().reshape(-1) for p in getattr(st, net).parameters()])
+
+    def batch_start(s, e, b):
+        if (e, b) == (2, 1):
+            s.load(path)
+        snap["p"] = [flat(n).clone() for n in s.networks]
+
+    def batch_end(s, e, b):
+        for i, n in enumerate(s.networks):
+            want = snap["p"][i] - 0.1 * grads["g"][i]
+            if not torch.allclose(flat(n), want, rtol=1e-12, atol=1e-14):
+                fails.append("epoch %d batch %d: %s did not move by -lr * gradient (a checkpoint was restored from a callback at epoch 2, batch 1)" % (e, b, n))
+    try:
+        st.fit(data, epochs=3, pos_batch_size=2, neg_batch_size=2, k=1, lr=0.1,
+               callbacks=[LambdaCallback(on_train_start=lambda s: s.save(path), on_batch_start=batch_start, on_batch_end=batch_end)], **kw)
+    finally:
+        import shutil
+        shutil.rmtree(tmp, ignore_errors=True)
+    return fails[:3]
+
+
 def cases(quick):
     c = [("positive", 5, 2, None, 1), ("positive", 4, 4, 3, 0), ("complex", 5, 3, 2, 2), ("mixed", 4, 2, None, 1)]
     if not quick:
@@ -97,6 +144,10 @@ def cases(quick):
 
 def replay(cfg):
     fails = []
+    for kind in ("positive", "complex"):
+        f = restored_checkpoint(kind)
+        if f:
+            fails.append(((kind, "checkpoint restored during the run"), f[:2]))
     for (kind, N, B, nB, k) in cases(True):
         f = native_check(kind, N, B, nB, k) or native_check(kind, N, B, nB, k, use_sched=False, reinit=True)
         if f:
@@ -106,6 +157,11 @@ def replay(cfg):
 
 def bounded(tier, seed):
     bad, n = [], 0
+    for kind in ("positive", "complex", "mixed"):
+        f = restored_checkpoint(kind, seed)
+        n += 1
+        if f:
+            bad.append(((kind, "checkpoint restored from a callback during the run"), f[:2]))
     for (kind, N, B, nB, k) in cases(tier == "quick"):
         for sched in (True, False):
             f = native_check(kind, N, B, nB, k, seed=seed, use_sched=sched)
